@@ -168,6 +168,22 @@ def p_first_line(v):
     return None
 
 
+def p_instance(v):
+    """a field object handed to from_value of its own class stands for itself: same name / synopsis, same text, same
+    rendering (the copyright classes accept an instance where a value is expected)"""
+    for cls in (dcopy.LicenseField, dcopy.CopyrightStatementField, dcopy.CopyrightField, dcopy.MaintainerField):
+        try:
+            a = cls.from_value(v)
+            if a is None:
+                continue
+            b = cls.from_value(a)
+        except Exception as e:  # noqa
+            return '%s.from_value raises %s' % (cls.__name__, type(e).__name__)
+        if b != a or b.dumps() != a.dumps() or cls.from_value(b).dumps() != a.dumps():
+            return '%s.from_value(instance) is not the instance: %r vs %r' % (cls.__name__, b, a)
+    return None
+
+
 ALPHABET = ['a', ' ', '.', '\n', '\t', '\r', '\x0c', '\xa0']
 
 
@@ -215,6 +231,14 @@ def run(ctx):
     fails += [('decode_encode', x, w) for x, w in ctx.prop('prop:decode_encode', texts, p_decode_encode)]
     fails += [('fixpoint', x, w) for x, w in ctx.prop('prop:fixpoint', texts, p_fixpoint)]
     fails += [('first_line', x, w) for x, w in ctx.prop('prop:first_line', texts, p_first_line)]
+    fails += [('instance', x, w) for x, w in ctx.prop('prop:from_value(instance)', texts[::3], p_instance)]
+    # texts beyond 1 MiB in which an empty line (or a line end) sits exactly on every multiple of 4096 characters
+    def para(i):
+        return ['paragraph %d of a long text' % i, 'with a second line', 'and a third']
+    large = [G.aligned_text(rng, 1150000, f, head='Short name\n', unit=para) for f in ('blank-start', 'line-start', 'sep-straddle')]
+    large += [t.replace('\n', '\r\n') for t in large[:1]]
+    for nm, pr in (('safe', p_safe), ('decode_encode', p_decode_encode), ('fixpoint', p_fixpoint), ('first_line', p_first_line)):
+        fails += [(nm, x, w) for x, w in ctx.prop('prop:%s:large' % nm, large, pr)]
     ctx.stream('prop:decode_encode')['in_domain'] = sum(1 for t in texts if in_decode_encode_domain(t))
     ctx.stream('prop:fixpoint')['in_domain'] = sum(1 for t in texts if is_policy_value(t))
 
